@@ -365,6 +365,118 @@ fn chains(thorough: bool) -> (u64, Vec<Violation>) {
     (n, out)
 }
 
+/// Unary minus around, inside and on both sides of every binary operator (arithmetic and
+/// comparisons): `-(a op b)`, `(-a) op b`, `a op (-b)`, `(-a) op (-b)`, `-(-a op b)` over the
+/// boundary values (equal operands, zeros of both signs, NaN, infinities, MIN_INT), with the
+/// operands run-time values, literals, and one of each. Reference: the operator's own result on
+/// the negated value(s), negation being IEEE sign flip / wrapping negation.
+fn prefix_over_binary() -> (u64, Vec<Violation>) {
+    let fvals: Vec<f64> = vec![0.0, -0.0, 1.5, -1.5, 0.25, 2.0, f64::INFINITY, f64::NEG_INFINITY, f64::NAN, 5e-324, 1e308];
+    let ivals: Vec<i64> = vec![0, 1, -1, 2, 5, -5, 63, i64::MAX, i64::MIN, i64::MIN + 1];
+    const FOPS: &[&str] = &["+", "-", "*", "/", "==", "!=", "<", "<=", ">", ">="];
+    const IOPS: &[&str] = &["+", "-", "*", "/", "%", "<<", ">>", "&", "|", "^", "==", "!=", "<", "<=", ">", ">="];
+    // (shape text, negate a first, negate b first, negate the result, negate a again inside)
+    const SHAPES: &[(&str, bool, bool, bool)] = &[
+        ("-(A OP B)", false, false, true),
+        ("(-A) OP B", true, false, false),
+        ("A OP (-B)", false, true, false),
+        ("(-A) OP (-B)", true, true, false),
+        ("-((-A) OP B)", true, false, true),
+        ("-A OP -B", true, true, false),
+    ];
+    let mut items: Vec<(bool, usize, usize)> = Vec::new();
+    for si in 0..SHAPES.len() {
+        for oi in 0..FOPS.len() {
+            items.push((true, si, oi));
+        }
+        for oi in 0..IOPS.len() {
+            items.push((false, si, oi));
+        }
+    }
+    let fnum = |r: &Ref| -> Option<f64> {
+        match r {
+            Ref::Val(v) if v == "NaN" => Some(f64::NAN),
+            Ref::Val(v) => v.trim_start_matches('f').parse().ok(),
+            _ => None,
+        }
+    };
+    let accs = par_fold(items.len(), || (Interpreter::with_stdlib(), Acc::default()), |(interp, acc), i| {
+        let (is_float, si, oi) = items[i];
+        let (shape, neg_a, neg_b, neg_r) = SHAPES[si];
+        let op = if is_float { FOPS[oi] } else { IOPS[oi] };
+        let is_cmp = ["==", "!=", "<", "<=", ">", ">="].contains(&op);
+        if neg_r && is_cmp {
+            return; // minus of a bool is not an operation
+        }
+        // `-A OP -B` without parentheses is the same grouping for every operator below prefix minus
+        let ty = if is_float { "float" } else { "int" };
+        let text_of = |a: &str, b: &str| shape.replace("OP", op).replace('A', a).replace('B', b);
+        let rt = define(interp, &format!("f := (a: {ty}, b: {ty}) -> any {{ return {} }}", text_of("a", "b")));
+        let n = if is_float { fvals.len() } else { ivals.len() };
+        for ia in 0..n {
+            for ib in 0..n {
+                let (expect, lits, args): (Ref, [Option<String>; 2], Vec<Variable>) = if is_float {
+                    let (a, b) = (fvals[ia], fvals[ib]);
+                    let (x, y) = (if neg_a { -a } else { a }, if neg_b { -b } else { b });
+                    let r = ref_float(op, x, y);
+                    let r = if neg_r { match fnum(&r) { Some(v) => Ref::Val(crate::val::float_canon(-v)), None => continue } } else { r };
+                    (r, [float_lit(a), float_lit(b)], vec![a.into(), b.into()])
+                } else {
+                    let (a, b) = (ivals[ia], ivals[ib]);
+                    let (x, y) = (if neg_a { a.wrapping_neg() } else { a }, if neg_b { b.wrapping_neg() } else { b });
+                    let r = ref_int(op, x, y);
+                    let r = if neg_r {
+                        match &r {
+                            Ref::Val(v) => match v.parse::<i64>() { Ok(v) => Ref::Val(v.wrapping_neg().to_string()), Err(_) => continue },
+                            _ => r,
+                        }
+                    } else { r };
+                    (r, [Some(int_lit(a)), Some(int_lit(b))], vec![a.into(), b.into()])
+                };
+                for mask in [0b00usize, 0b01, 0b10, 0b11] {
+                    if (0..2).any(|k| mask & (1 << k) != 0 && lits[k].is_none()) {
+                        continue;
+                    }
+                    let got = if mask == 0 {
+                        call(&rt, args.clone())
+                    } else if mask == 0b11 {
+                        literal(interp, &text_of(lits[0].as_ref().unwrap(), lits[1].as_ref().unwrap()))
+                    } else {
+                        let k_rt = if mask == 0b01 { 1 } else { 0 };
+                        let name = |k: usize| if k == k_rt { "x".to_string() } else { lits[k].clone().unwrap() };
+                        let text = format!("f := (x: {ty}) -> any {{ return {} }}", text_of(&name(0), &name(1)));
+                        match guard(|| Code::parse(interp, &text)) {
+                            Ok(Ok(code)) => match guard(|| code.exec()) {
+                                Ok(Ok(Variable::Function(g))) => call(&g, vec![args[k_rt].clone()]),
+                                _ => Ref::Err("DEFINE FAILED"),
+                            },
+                            Ok(Err(e)) if core::is_exec_kind(&e) => Ref::Err(leak(core::error_kind(&e))),
+                            Ok(Err(e)) => Ref::Err(leak(format!("REJECTED {}", core::error_kind(&e)))),
+                            Err(Stop::Panic(p)) => Ref::Err(leak(format!("PANIC {} @{}", p.short_msg(), p.file()))),
+                            Err(Stop::Exhausted) => Ref::Err("EXHAUSTED"),
+                        }
+                    };
+                    acc.evals += 1;
+                    if got != expect && got != Ref::Err("EXHAUSTED") {
+                        let shown: Vec<String> = args.iter().map(|v| canon(v)).collect();
+                        acc.violations.push(Violation {
+                            sig: format!("C08|{ty} prefix minus with {op}|{shape}|literal-operands={mask:02b}|a={}|b={}", shown[0], shown[1]),
+                            detail: json!({"kind": "scalar", "expression": text_of("a", "b"), "a": shown[0], "b": shown[1], "literal_operand_mask (bit k = operand k)": format!("{mask:02b}"), "expected": format!("{expect:?}"), "observed": format!("{got:?}")}),
+                        });
+                    }
+                }
+            }
+        }
+    });
+    let mut n = 0u64;
+    let mut out = Vec::new();
+    for (_, a) in accs {
+        n += a.evals;
+        out.extend(a.violations);
+    }
+    (n, out)
+}
+
 pub fn run(tier: &str) -> i32 {
     let thorough = tier == "thorough";
     let mut report = Report::new("C08", tier);
@@ -677,9 +789,11 @@ pub fn run(tier: &str) -> i32 {
     samples.push(|| json!({"compound_case": "c := mut MIN; c /= -1  ->  (MIN, MIN)"}));
 
     let chain = chains(thorough);
+    let prefixed = prefix_over_binary();
     report.violations(chain.1);
+    report.violations(prefixed.1);
     let Acc { evals, errors, outcomes, violations } = acc;
-    let evals = evals + chain.0;
+    let evals = evals + chain.0 + prefixed.0;
     report.violations(violations);
     let coverage = json!({
         "states": (grid.len() * grid.len() * INT_OPS.len() + fgrid.len() * fgrid.len() * FLOAT_OPS.len()),
@@ -687,6 +801,7 @@ pub fn run(tier: &str) -> i32 {
         "traces_validated_against_impl": evals,
         "int_grid_size": grid.len(),
         "float_grid_size": fgrid.len(),
+        "prefix_minus_evaluations (6 placements of unary minus around every binary operator x operand pairs x which operands are literals)": prefixed.0,
         "chain_evaluations ((a op1 b) op2 c and a op1 (b op2 c); every operator pair x operand triple x which operands are literals)": chain.0,
         "int_operators": INT_OPS.len(),
         "forms": ["literal (folded)", "parameter (run time)", "compound assignment"],
